@@ -58,6 +58,36 @@ def jaeger_consts():
                 ge=(cmp_.group(1) == ">="), one=int(one.group(1)), half=int(half.group(1)))
 
 
+_BITS = {"usize": 64, "u64": 64, "u32": 32, "u16": 16, "u8": 8, "u128": 128}
+
+
+def _bits(ty, what):
+    if ty not in _BITS:
+        raise TranslateError("unexpected integer type %r for %s" % (ty, what))
+    return _BITS[ty]
+
+
+def _nontest(src):
+    """the part of a source file in front of its #[cfg(test)] module"""
+    i = src.find("#[cfg(test)]\nmod tests")
+    return src if i < 0 else src[:i]
+
+
+def epoch_consts():
+    """widths of the scope stamp ("span line epoch") wherever it is stored, and the number of
+    integer casts applied to it (64-bit target)"""
+    stack = _nontest(open(os.path.join(REPO, "fastrace/src/local/local_span_stack.rs")).read())
+    line = _nontest(open(os.path.join(REPO, "fastrace/src/local/local_span_line.rs")).read())
+    counter = _need(re.search(r"next_span_line_epoch: (\w+),", stack), "LocalSpanStack.next_span_line_epoch")
+    lhandle = _need(re.search(r"pub struct SpanLineHandle \{\s*(?:pub(?:\(crate\))? )?span_line_epoch: (\w+),", stack), "SpanLineHandle.span_line_epoch")
+    stamp = _need(re.search(r"pub struct SpanLine \{[^}]*?\bepoch: (\w+),", line, re.S), "SpanLine.epoch")
+    handle = _need(re.search(r"pub struct LocalSpanHandle \{[^}]*?span_line_epoch: (\w+),", line, re.S), "LocalSpanHandle.span_line_epoch")
+    casts = len(re.findall(r"epoch(?:\(\))? as \w+", stack)) + len(re.findall(r"epoch(?:\(\))? as \w+", line))
+    return {"counter": _bits(counter.group(1), "counter"), "line_handle": _bits(lhandle.group(1), "SpanLineHandle"),
+            "stamp": _bits(stamp.group(1), "SpanLine.epoch"), "handle": _bits(handle.group(1), "LocalSpanHandle"),
+            "casts": casts}
+
+
 def generate(path):
     parts = ["(* GENERATED from /repo by lib/srcconsts.py on every run -- do not edit *)",
              "From Coq Require Import List NArith.", "From FT Require Import Model.Codec.",
@@ -74,6 +104,15 @@ def generate(path):
         parts.append("Definition src_size_cmp_ge : bool := %s." % ("true" if j["ge"] else "false"))
         parts.append("Definition src_single_le : N := %d." % j["one"])
         parts.append("Definition src_halving : N := %d." % j["half"])
+    except (TranslateError, OSError) as e:
+        errors.append(str(e))
+    try:
+        e = epoch_consts()
+        parts.append("Definition src_epoch_bits_counter : N := %d." % e["counter"])
+        parts.append("Definition src_epoch_bits_stamp : N := %d." % e["stamp"])
+        parts.append("Definition src_epoch_bits_handle : N := %d." % e["handle"])
+        parts.append("Definition src_epoch_bits_line_handle : N := %d." % e["line_handle"])
+        parts.append("Definition src_epoch_casts : N := %d." % e["casts"])
     except (TranslateError, OSError) as e:
         errors.append(str(e))
     text = "\n".join(parts) + "\n"
